@@ -219,7 +219,7 @@ func (w *vcrWorld) vcJWTHarnessIssued(nodeIssued string) (*consumer, error) {
 	claims["iss"] = did
 	claims["jti"] = did + "#" + uuid.NewString()
 	tok := signJWT(map[string]any{"alg": "ES256", "kid": did + "#0", "typ": "JWT"}, claims, k)
-	s := &seed{compact: tok, pub: &k.PublicKey, priv: k, keyBound: true, other: w.other, attKid: didJWK(&att.p256.PublicKey) + "#0"}
+	s := &seed{compact: tok, pub: &k.PublicKey, priv: k, keyBound: true, other: w.other, attKid: didJWK(&att.p256.PublicKey) + "#0", signerClaim: "iss"}
 	return &consumer{name: "credential-jwt", kind: "issued by a did:jwk issuer (key owned by the harness)", seed: s,
 		present: func(v variant) (outcome, error) { return w.verifyVC(v.token) }}, nil
 }
@@ -522,11 +522,15 @@ func (iw *iamWorld) dpopValidateHarness() (*consumer, error) {
 	htu, at := "https://resource.example/c17h", "opaque-access-token"
 	tok := harnessDPoP(k, "GET", htu, at)
 	jkt := b64.EncodeToString(jwkThumbprint(&k.PublicKey))
-	s := &seed{compact: tok, pub: &k.PublicKey, priv: k, embedsJWK: true, keyBound: true, attKid: "attacker-key"}
+	s := &seed{compact: tok, pub: &k.PublicKey, priv: k, embedsJWK: true, keyBound: true, callerBinds: true, attKid: "attacker-key"}
 	return &consumer{name: "dpop-proof", kind: "validate endpoint; proof made with a key the harness owns, thumbprint given by the caller", seed: s,
 		present: func(v variant) (outcome, error) {
+			pin := jkt
+			if v.jkt != "" {
+				pin = v.jkt // the access token is bound to the key this variant embeds (the harness is the resource server that says so)
+			}
 			return dpopOutcome(node.Do("POST", w.N.Internal+"/internal/auth/v2/dpop/validate", map[string]any{
-				"dpop_proof": v.token, "method": "GET", "url": htu, "thumbprint": jkt, "token": at}, nil))
+				"dpop_proof": v.token, "method": "GET", "url": htu, "thumbprint": pin, "token": at}, nil))
 		}}, nil
 }
 
